@@ -316,8 +316,21 @@ v_realloc(ZixAllocator* al, void* ptr, size_t size)
   return p;
 }
 
+// A release may leave errno changed (POSIX allowed free() to do so until 2024, and a caller's allocator may do anything):
+// every release through the tracking allocator does, so a function that reads errno after releasing a block is noticed.
+#define V_ERRNO_AFTER_FREE EBUSY
+
+static void v_free_common_(VAlloc* a, void* ptr, bool aligned_entry);
+
 static void
 v_free_common(VAlloc* a, void* ptr, bool aligned_entry)
+{
+  v_free_common_(a, ptr, aligned_entry);
+  errno = V_ERRNO_AFTER_FREE;
+}
+
+static void
+v_free_common_(VAlloc* a, void* ptr, bool aligned_entry)
 {
   if (!ptr) {
     v_alloc_logf(a, aligned_entry ? "F0" : "f0");
